@@ -321,4 +321,25 @@ PROPS["C14"] = {
     "level_note": "transport-level behaviour (timeouts, resets) is exercised, not modelled.",
 }
 
+BASIC = {"pkg": "pkg/authentication/basic", "overlay": "basic"}
+PROPS["C20"] = {
+    "drivers": [dict(BASIC, race=True), dict(MAIN, race=True)],
+    "rule": "binaries built with the race detector: 2 reloaders cycling 7 htpasswd file versions (entry added / removed / password changed / two "
+            "malformed versions in between) against 6 (16 in thorough) validating goroutines for 3 s (40 s), and the same for the "
+            "authenticated-e-mails allow-list (5 versions, one with a CSV parse error); every answer is checked against the set of versions "
+            "in force between the start and the end of the call; after the reloaders stop every validation must reflect the final contents; "
+            "a failed reload must leave the previous contents exactly; non-trivial = each stress run",
+    "assumptions": ["the Go memory model gives sequentially consistent behaviour to data-race-free programs (SC-for-DRF): the interleaving "
+                    "semantics of Model/Reload.v is then sound for the generated programs",
+                    "fsnotify delivery is not modelled: the reload functions are called directly after rewriting the file",
+                    "a deferred Unlock would be recorded at the defer site by the translator (none exists in the modelled functions)"],
+    "trusted_base": ["translator go/xlate/sync.go (event programs from the Go AST)", "the Go race detector and scheduler for the stress run"],
+    "level_text": "c20_drf (for ANY event programs passing the static lock discipline, ANY number of goroutines and ANY interleaving: no race "
+                  "state is reachable; inductive invariant over the RWMutex transition system), c20_generated_well_locked (the programs "
+                  "REGENERATED from htpasswd.go / validator.go on this run pass the discipline, by computation), c20_generated_drf, "
+                  "c20_snapshot (one pointer read per validation; published maps never mutated), c20_failed_reload (one publication per reload, "
+                  "after all error exits) are proved; a race-detector stress run checks the code on every run.",
+    "level_note": "_partial: real preemption and the memory model are runtime behaviour; covered by SC-for-DRF as an assumption and by the stress run.",
+}
+
 NOT_APPLICABLE = {}
